@@ -1,0 +1,53 @@
+// Licensed to Apache Software Foundation (ASF) under one or more contributor
+// license agreements. See the NOTICE file distributed with
+// this work for additional information regarding copyright
+// ownership. Apache Software Foundation (ASF) licenses this file to you under
+// the Apache License, Version 2.0 (the "License"); you may
+// not use this file except in compliance with the License.
+// You may obtain a copy of the License at
+//
+//     http://www.apache.org/licenses/LICENSE-2.0
+//
+// Unless required by applicable law or agreed to in writing,
+// software distributed under the License is distributed on an
+// "AS IS" BASIS, WITHOUT WARRANTIES OR CONDITIONS OF ANY
+// KIND, either express or implied.  See the License for the
+// specific language governing permissions and limitations
+// under the License.
+
+//go:build verif
+
+// Contracts for the escaped, delimiter-separated array codec (comment-only; read by /verif/govc).
+
+package vararray
+
+//@ section C11 C08
+//
+//@ func bytes.IndexByte
+//@   assumed standard library: index of the first occurrence of c, or -1
+//@   pure
+//@   ensures -1 <= result && result < len(b)
+//@   ensures hit:  result >= 0 ==> b[result] == c && (forall j :: 0 <= j && j < result ==> b[j] != c)
+//@   ensures miss: result < 0 ==> (forall j :: 0 <= j && j < len(b) ==> b[j] != c)
+//
+// 92 is the escape byte '\\', 124 the delimiter '|'
+//@ spec func noEscFrom(src []byte, idx int) bool = forall j :: idx <= j && j < len(src) ==> src[j] != 92
+//
+// UnmarshalVarArray decodes the entry that starts at idx in place. For arbitrary bytes it never faults; on success the
+// decoded value src[idx:end] and the next entry start satisfy idx <= end < next <= len(src) (so a caller's scan makes
+// progress); bytes outside [idx, next) are never changed, and NO byte is changed when src[idx:] holds no escape byte -
+// this is the condition under which a caller may decode a shared buffer without copying it.
+//@ func UnmarshalVarArray
+//@   mode int
+//@   requires 0 <= idx
+//@   modifies src[idx:len(src)]
+//@   ensures  bounds: result2 == nil ==> idx <= result0 && result0 < result1 && result1 <= len(src)
+//@   ensures  tail: result2 == nil ==> (forall j :: result1 <= j && j < len(src) ==> src[j] == old(src[j]))
+//@   ensures  plain-untouched: old(noEscFrom(src, idx)) ==> (forall j :: 0 <= j && j < len(src) ==> src[j] == old(src[j]))
+//@   ensures  plain-end: result2 == nil && old(noEscFrom(src, idx)) ==> src[result0] == 124 && result1 == result0 + 1 && (forall j :: idx <= j && j < result0 ==> src[j] != 124)
+//@   loop 0 invariant idx <= start && start <= writeIdx && writeIdx <= readIdx && readIdx <= len(src)
+//@   loop 0 invariant rest: forall j :: readIdx <= j && j < len(src) ==> src[j] == old(src[j])
+//@   loop 0 invariant lockstep: writeIdx == readIdx ==> (forall j :: 0 <= j && j < len(src) ==> src[j] == old(src[j]))
+//@   loop 0 invariant shifted: writeIdx < readIdx ==> (exists j :: start <= j && j < readIdx && old(src[j]) == 92)
+//@   loop 0 invariant nodelim: writeIdx == readIdx ==> (forall j :: idx <= j && j < readIdx ==> old(src[j]) != 124)
+//@   loop 0 decreases len(src) - readIdx
